@@ -459,6 +459,28 @@ func (g *PCFG) CondsAt(b *ssa.BasicBlock) []Cond {
 	return out
 }
 
+// CondsOnEdge: conditions holding when control flows from pred to succ.
+func (g *PCFG) CondsOnEdge(pred, succ *ssa.BasicBlock) []Cond {
+	out := append([]Cond{}, g.CondsAt(pred)...)
+	if len(pred.Instrs) == 0 {
+		return out
+	}
+	if iff, ok := pred.Instrs[len(pred.Instrs)-1].(*ssa.If); ok && len(pred.Succs) == 2 && pred.Succs[0] != pred.Succs[1] {
+		sense := pred.Succs[0] == succ
+		v := iff.Cond
+		for {
+			u, ok := v.(*ssa.UnOp)
+			if !ok || u.Op != token.NOT {
+				break
+			}
+			v = u.X
+			sense = !sense
+		}
+		out = append(out, Cond{V: v, Sense: sense, At: pred})
+	}
+	return out
+}
+
 // CondsAtInstr: conditions holding at an instruction.
 func (g *PCFG) CondsAtInstr(in ssa.Instruction) []Cond { return g.CondsAt(in.Block()) }
 
